@@ -4,17 +4,17 @@ Every operation of M2 `ObjGraph` preserves the separation invariant and leaves i
 -/
 namespace Sdc.ObjGraph
 
-/-- `s'` has the same instances as `s` (same positions, classes, groups, root identities) and those outside group `G`
-    are literally unchanged -/
-def Pres (G : Nat) (s s' : St) : Prop :=
+/-- `s'` has the same instances as `s` (same positions, classes, groups, root identities) and those whose group does
+    not satisfy `G` are literally unchanged -/
+def Pres (G : Nat → Prop) (s s' : St) : Prop :=
   s.next ≤ s'.next ∧ s'.insts.length = s.insts.length ∧
   ∀ (m : Nat) (c : Inst), s.insts[m]? = some c → ∃ c' : Inst, s'.insts[m]? = some c' ∧ c'.grp = c.grp ∧ c'.cls = c.cls ∧
-    rootId c'.tree = rootId c.tree ∧ (c.grp ≠ G → c' = c)
+    rootId c'.tree = rootId c.tree ∧ (¬ G c.grp → c' = c)
 
-theorem Pres.refl (G : Nat) (s : St) : Pres G s s :=
+theorem Pres.refl (G : Nat → Prop) (s : St) : Pres G s s :=
   ⟨Nat.le_refl _, rfl, fun _ c h => ⟨c, h, rfl, rfl, rfl, fun _ => rfl⟩⟩
 
-theorem Pres.trans {G : Nat} {s s' s'' : St} (h1 : Pres G s s') (h2 : Pres G s' s'') : Pres G s s'' := by
+theorem Pres.trans {G : Nat → Prop} {s s' s'' : St} (h1 : Pres G s s') (h2 : Pres G s' s'') : Pres G s s'' := by
   refine ⟨Nat.le_trans h1.1 h2.1, h2.2.1.trans h1.2.1, fun m c hc => ?_⟩
   obtain ⟨c', hc', g1, k1, r1, e1⟩ := h1.2.2 m c hc
   obtain ⟨c'', hc'', g2, k2, r2, e2⟩ := h2.2.2 m c' hc'
@@ -23,11 +23,16 @@ theorem Pres.trans {G : Nat} {s s' s'' : St} (h1 : Pres G s s') (h2 : Pres G s' 
   subst this
   exact e2 hne
 
+theorem Pres.mono {G G' : Nat → Prop} {s s' : St} (h : Pres G s s') (hG : ∀ g, G g → G' g) : Pres G' s s' :=
+  ⟨h.1, h.2.1, fun m c hc => by
+    obtain ⟨c', hc', g1, k1, r1, e1⟩ := h.2.2 m c hc
+    exact ⟨c', hc', g1, k1, r1, fun hne => e1 (fun hg => hne (hG _ hg))⟩⟩
+
 theorem mutate_pack {D : List Tree} {s : St} (hI : Inv D s) {a0 : Inst} (h0 : a0 ∈ s.insts) {tgt : Nat}
     (ht : tgt ∈ a0.tree.ids) (f : List Tree → List Tree) (P : Nat → Prop) (n' : Nat) (hn : s.next ≤ n')
     (hf : ∀ ks x, x ∈ idsL (f ks) → x ∈ idsL ks ∨ P x)
     (hP : ∀ x, P x → (s.next ≤ x ∧ x < n') ∨ ∃ b ∈ s.insts, b.grp = a0.grp ∧ x ∈ b.tree.ids) :
-    Inv D { mutate s tgt f with next := n' } ∧ Pres a0.grp s { mutate s tgt f with next := n' } := by
+    Inv D { mutate s tgt f with next := n' } ∧ Pres (· = a0.grp) s { mutate s tgt f with next := n' } := by
   refine ⟨inv_mutate hI h0 ht f P n' hn hf hP, hn, by simp [mutate], fun m c hc => ?_⟩
   refine ⟨{ c with tree := c.tree.mapNode tgt f }, ?_, rfl, rfl, rootId_mapNode .., fun hne => ?_⟩
   · simp only [mutate, List.getElem?_map, hc, Option.map_some]
@@ -64,19 +69,29 @@ theorem getD_ids {ks : List Tree} {k x : Nat} (h : x ∈ (ks.getD k (.imm 0)).id
   | none => simp [hk, Tree.ids] at h
   | some c => simp [hk] at h; exact mem_idsL.mpr ⟨c, List.mem_of_getElem? hk, h⟩
 
-theorem getProp_pack {D : List Tree} {s : St} (hI : Inv D s) {j rb G : Nat} {b : Inst}
-    (hj : s.insts[j]? = some b) (hgb : b.grp = G) (hrb : rootId b.tree = some rb) (k : Nat) (g : GetMode) (deep : Bool) :
+theorem copyVal_deep_ids (n : Nat) (v : Tree) (x : Nat) (h : x ∈ (copyVal true n v).1.ids) :
+    n ≤ x ∧ x < (copyVal true n v).2 := by
+  cases v with
+  | imm w => simp [copyVal, Tree.ids] at h
+  | obj r ks => simp only [copyVal, if_true] at h ⊢; exact fresh_ids _ _ _ h
+
+theorem getProp_pack {D : List Tree} {s : St} (hI : Inv D s) {j rb Gb : Nat} {b : Inst}
+    (hj : s.insts[j]? = some b) (hgb : b.grp = Gb) (hrb : rootId b.tree = some rb) (k : Nat) (g : GetMode) (deep : Bool) :
     ∃ v s1, getProp s rb k ((kidsOf b.tree).getD k (.imm 0)) g = (v, s1) ∧
-    Inv D s1 ∧ Pres G s s1 ∧ ∀ x, x ∈ (copyVal deep s1.next v).1.ids →
-      (s1.next ≤ x ∧ x < (copyVal deep s1.next v).2) ∨ ∃ b' ∈ s1.insts, b'.grp = G ∧ x ∈ b'.tree.ids := by
+    Inv D s1 ∧ Pres (· = Gb) s s1 ∧ ∀ x, x ∈ (copyVal deep s1.next v).1.ids →
+      (s1.next ≤ x ∧ x < (copyVal deep s1.next v).2) ∨
+        (deep = false ∧ ∃ b' ∈ s1.insts, b'.grp = Gb ∧ x ∈ b'.tree.ids) := by
   have hbm := List.mem_of_getElem? hj
-  have plain : Inv D s ∧ Pres G s s ∧ ∀ x, x ∈ (copyVal deep s.next ((kidsOf b.tree).getD k (.imm 0))).1.ids →
+  have plain : Inv D s ∧ Pres (· = Gb) s s ∧ ∀ x, x ∈ (copyVal deep s.next ((kidsOf b.tree).getD k (.imm 0))).1.ids →
       (s.next ≤ x ∧ x < (copyVal deep s.next ((kidsOf b.tree).getD k (.imm 0))).2) ∨
-        ∃ b' ∈ s.insts, b'.grp = G ∧ x ∈ b'.tree.ids := by
+        (deep = false ∧ ∃ b' ∈ s.insts, b'.grp = Gb ∧ x ∈ b'.tree.ids) := by
     refine ⟨hI, Pres.refl .., fun x hx => ?_⟩
-    rcases copyVal_ids deep s.next _ x hx with h | h
-    · exact Or.inl h
-    · exact Or.inr ⟨b, hbm, hgb, kids_ids (getD_ids h)⟩
+    cases deep with
+    | true => exact Or.inl (copyVal_deep_ids _ _ x hx)
+    | false =>
+      rcases copyVal_ids false s.next _ x hx with h | h
+      · exact Or.inl h
+      · exact Or.inr ⟨rfl, b, hbm, hgb, kids_ids (getD_ids h)⟩
   unfold getProp
   split
   · cases g with
@@ -99,12 +114,12 @@ theorem getProp_pack {D : List Tree} {s : St} (hI : Inv D s) {j rb G : Nat} {b :
       cases deep <;> simp [copyVal, Tree.fresh, freshL, Tree.ids, idsL] at hx ⊢ <;> omega
   · exact ⟨_, _, rfl, plain⟩
 
-/-- one property of `_update_from_other` -/
-theorem updProp_pack {D : List Tree} {s : St} (hI : Inv D s) {i j ra rb G : Nat} {a b : Inst}
-    (hi : s.insts[i]? = some a) (hga : a.grp = G) (hra : rootId a.tree = some ra)
-    (hj : s.insts[j]? = some b) (hgb : b.grp = G) (hrb : rootId b.tree = some rb)
-    (deep : Bool) (k : Nat) (g : GetMode) :
-    Inv D (updProp deep s ra rb j k g) ∧ Pres G s (updProp deep s ra rb j k g) := by
+/-- one property of `_update_from_other`; a shallow update needs the two instances to be in one group already -/
+theorem updProp_pack {D : List Tree} {s : St} (hI : Inv D s) {i j ra rb Ga Gb : Nat} {a b : Inst}
+    (hi : s.insts[i]? = some a) (hga : a.grp = Ga) (hra : rootId a.tree = some ra)
+    (hj : s.insts[j]? = some b) (hgb : b.grp = Gb) (hrb : rootId b.tree = some rb)
+    (deep : Bool) (hd : deep = false → Ga = Gb) (k : Nat) (g : GetMode) :
+    Inv D (updProp deep s ra rb j k g) ∧ Pres (fun x => x = Ga ∨ x = Gb) s (updProp deep s ra rb j k g) := by
   unfold updProp
   simp only [hj]
   obtain ⟨v, s1, hq, q1, q2, q3⟩ := getProp_pack hI hj hgb hrb k g deep
@@ -116,28 +131,30 @@ theorem updProp_pack {D : List Tree} {s : St} (hI : Inv D s) {i j ra rb G : Nat}
     (copyVal deep s1.next v).2 (copyVal_le ..)
     (fun ks x hx => idsL_set hx)
     (fun x hx => by
-      rcases q3 x hx with h | ⟨b', hb', hg', hx'⟩
+      rcases q3 x hx with h | ⟨hdeep, b', hb', hg', hx'⟩
       · exact Or.inl h
-      · exact Or.inr ⟨b', hb', by rw [hg', ga', hga], hx'⟩)
+      · exact Or.inr ⟨b', hb', by rw [hg', ga', hga, hd hdeep], hx'⟩)
   rw [ga', hga] at m2
-  exact ⟨m2.1, q2.trans m2.2⟩
+  exact ⟨m2.1, (q2.mono (fun g h => Or.inr h)).trans (m2.2.mono (fun g h => Or.inl h))⟩
 
-theorem updProps_pack {D : List Tree} {i j ra rb G : Nat} (deep : Bool) (skip : List Nat) :
+theorem updProps_pack {D : List Tree} {i j ra rb Ga Gb : Nat} (deep : Bool) (hd : deep = false → Ga = Gb)
+    (skip : List Nat) :
     ∀ (ps : List PropE) (k : Nat) (s : St), Inv D s →
-      (∃ a, s.insts[i]? = some a ∧ a.grp = G ∧ rootId a.tree = some ra) →
-      (∃ b, s.insts[j]? = some b ∧ b.grp = G ∧ rootId b.tree = some rb) →
-      Inv D (updProps deep ra rb j skip s k ps) ∧ Pres G s (updProps deep ra rb j skip s k ps)
+      (∃ a, s.insts[i]? = some a ∧ a.grp = Ga ∧ rootId a.tree = some ra) →
+      (∃ b, s.insts[j]? = some b ∧ b.grp = Gb ∧ rootId b.tree = some rb) →
+      Inv D (updProps deep ra rb j skip s k ps) ∧
+        Pres (fun x => x = Ga ∨ x = Gb) s (updProps deep ra rb j skip s k ps)
   | [], k, s, hI, _, _ => ⟨hI, Pres.refl ..⟩
   | p :: ps, k, s, hI, ⟨a, hi, hga, hra⟩, ⟨b, hj, hgb, hrb⟩ => by
     simp only [updProps]
     have h1 : Inv D (if k ∈ skip then s else updProp deep s ra rb j k p.get) ∧
-        Pres G s (if k ∈ skip then s else updProp deep s ra rb j k p.get) := by
+        Pres (fun x => x = Ga ∨ x = Gb) s (if k ∈ skip then s else updProp deep s ra rb j k p.get) := by
       split
       · exact ⟨hI, Pres.refl ..⟩
-      · exact updProp_pack hI hi hga hra hj hgb hrb deep k p.get
+      · exact updProp_pack hI hi hga hra hj hgb hrb deep hd k p.get
     obtain ⟨a', ha', ga', _, ra', _⟩ := h1.2.2.2 i a hi
     obtain ⟨b', hb', gb', _, rb', _⟩ := h1.2.2.2 j b hj
-    have h2 := updProps_pack deep skip ps (k+1) _ h1.1
+    have h2 := updProps_pack deep hd skip ps (k+1) _ h1.1
       ⟨a', ha', ga'.trans hga, ra'.trans hra⟩ ⟨b', hb', gb'.trans hgb, rb'.trans hrb⟩
     exact ⟨h2.1, h1.2.trans h2.2⟩
 
@@ -155,8 +172,8 @@ theorem frame_add (s : St) (e : Inst) (n : Nat) (k : Nat) (b : Inst) (hb : s.ins
       b'.tree = b.tree ∧ b'.cls = b.cls :=
   ⟨b, getElem?_append_some hb, rfl, rfl⟩
 
-theorem frame_of_pres {G : Nat} {s s' : St} (hp : Pres G s s') (k : Nat) (b : Inst) (hb : s.insts[k]? = some b)
-    (hne : b.grp ≠ G) : ∃ b' : Inst, s'.insts[k]? = some b' ∧ b'.tree = b.tree ∧ b'.cls = b.cls := by
+theorem frame_of_pres {G : Nat → Prop} {s s' : St} (hp : Pres G s s') (k : Nat) (b : Inst) (hb : s.insts[k]? = some b)
+    (hne : ¬ G b.grp) : ∃ b' : Inst, s'.insts[k]? = some b' ∧ b'.tree = b.tree ∧ b'.cls = b.cls := by
   obtain ⟨c', hc', _, _, _, e⟩ := hp.2.2 k b hb
   have := e hne
   subst this
@@ -199,7 +216,7 @@ theorem step_pack {T : Table} (hT : tableOK T = true) {D : List Tree} {s s' : St
       · simp only [Option.some.injEq] at h; subst h
         have h1 := fresh_le (Tree.obj r ks) s.next
         have h2 := fresh_ids (Tree.obj r ks) s.next
-        exact ⟨inv_add hI ⟨c, g, _⟩ _ h1 (Nat.le_of_lt hg) (fun x hx => Or.inl (h2 x hx)),
+        exact ⟨inv_add hI ⟨c, s.insts.length, _⟩ _ h1 (Nat.le_refl _) (fun x hx => Or.inl (h2 x hx)),
           fun k b hb _ => frame_add s _ _ k b hb⟩
       · simp only [Option.some.injEq] at h; subst h
         refine ⟨inv_add hI ⟨c, g, .obj s.next ks⟩ (s.next + 1) (by omega) (Nat.le_of_lt hg)
@@ -275,29 +292,88 @@ theorem step_pack {T : Table} (hT : tableOK T = true) {D : List Tree} {s s' : St
           simp only [Option.some.injEq] at h; subst h
           have him := List.mem_of_getElem? hi
           have hjm := List.mem_of_getElem? hj
-          -- step 1: the two groups become one
-          have hI0 := inv_relabel hI a.grp b.grp (hI.gLt b hjm)
-          have hi0 : ({ s with insts := relabel a.grp b.grp s.insts } : St).insts[i]? =
-              some (if a.grp = a.grp then { a with grp := b.grp } else a) := by
-            simp only [relabel, List.getElem?_map, hi, Option.map_some]
-          have hj0 : ({ s with insts := relabel a.grp b.grp s.insts } : St).insts[j]? =
-              some (if b.grp = a.grp then { b with grp := b.grp } else b) := by
-            simp only [relabel, List.getElem?_map, hj, Option.map_some]
-          simp only [if_true] at hi0
-          have hj0' : ({ s with insts := relabel a.grp b.grp s.insts } : St).insts[j]? = some b := by
-            rw [hj0]; split <;> rfl
-          have m := updProps_pack (D := D) (i := i) (j := j) (ra := ra) (rb := rb) (G := b.grp) ce.updDeep skip
-            ce.props 0 _ hI0 ⟨_, hi0, rfl, by simp [hta, rootId]⟩ ⟨_, hj0', rfl, by simp [htb, rootId]⟩
-          refine ⟨m.1, fun k c hc hind => ?_⟩
-          have hca : a.grp ≠ c.grp := hind i (by simp [Op.touched]) a hi
-          have hcb : b.grp ≠ c.grp := hind j (by simp [Op.touched]) b hj
-          have hc0 : ({ s with insts := relabel a.grp b.grp s.insts } : St).insts[k]? = some c := by
-            simp only [relabel, List.getElem?_map, hc, Option.map_some]
-            rw [if_neg (fun e => hca e.symm)]
-          exact frame_of_pres m.2 k c hc0 (fun e => hcb e.symm)
+          have hca : ∀ c : Inst, (∀ i' ∈ (Op.update i j skip).touched, ∀ a' : Inst, s.insts[i']? = some a' → a'.grp ≠ c.grp) →
+              a.grp ≠ c.grp ∧ b.grp ≠ c.grp :=
+            fun c hind => ⟨hind i (by simp [Op.touched]) a hi, hind j (by simp [Op.touched]) b hj⟩
+          cases hdeep : ce.updDeep with
+          | true =>
+            simp only [if_true]
+            have m := updProps_pack (D := D) (i := i) (j := j) (ra := ra) (rb := rb) (Ga := a.grp) (Gb := b.grp) true
+              (by simp) skip ce.props 0 s hI ⟨a, hi, rfl, by simp [hta, rootId]⟩ ⟨b, hj, rfl, by simp [htb, rootId]⟩
+            refine ⟨m.1, fun k c hc hind => frame_of_pres m.2 k c hc ?_⟩
+            have := hca c hind
+            exact fun e => e.elim (fun e => this.1 e.symm) (fun e => this.2 e.symm)
+          | false =>
+            simp only [Bool.false_eq_true, if_false]
+            -- the two groups become one
+            have hI0 := inv_relabel hI a.grp b.grp (hI.gLt b hjm)
+            have hi0 : ({ s with insts := relabel a.grp b.grp s.insts } : St).insts[i]? =
+                some (if a.grp = a.grp then { a with grp := b.grp } else a) := by
+              simp only [relabel, List.getElem?_map, hi, Option.map_some]
+            have hj0 : ({ s with insts := relabel a.grp b.grp s.insts } : St).insts[j]? =
+                some (if b.grp = a.grp then { b with grp := b.grp } else b) := by
+              simp only [relabel, List.getElem?_map, hj, Option.map_some]
+            simp only [if_true] at hi0
+            have hj0' : ({ s with insts := relabel a.grp b.grp s.insts } : St).insts[j]? = some b := by
+              rw [hj0]; split <;> rfl
+            have m := updProps_pack (D := D) (i := i) (j := j) (ra := ra) (rb := rb) (Ga := b.grp) (Gb := b.grp) false
+              (fun _ => rfl) skip ce.props 0 _ hI0 ⟨_, hi0, rfl, by simp [hta, rootId]⟩ ⟨_, hj0', rfl, by simp [htb, rootId]⟩
+            refine ⟨m.1, fun k c hc hind => ?_⟩
+            have hh := hca c hind
+            have hc0 : ({ s with insts := relabel a.grp b.grp s.insts } : St).insts[k]? = some c := by
+              simp only [relabel, List.getElem?_map, hc, Option.map_some]
+              rw [if_neg (fun e => hh.1 e.symm)]
+            exact frame_of_pres m.2 k c hc0 (fun e => e.elim (fun e => hh.2 e.symm) (fun e => hh.2 e.symm))
         · cases h
       · cases h
     · cases h
+
+/-- a deep `mk_copy`: the new instance has the value of its source and shares nothing with it -/
+theorem step_copy_deep {T : Table} {D : List Tree} {s s' : St} (hI : Inv D s) {i : Nat} {a : Inst}
+    (hi : s.insts[i]? = some a) (hd : clsFlag T a.cls (·.copyDeep) = true) (h : step T s (.copy i) = some s') :
+    ∃ e : Inst, s'.insts = s.insts ++ [e] ∧ e.cls = a.cls ∧ e.grp = s.insts.length ∧
+      e.tree.strip = a.tree.strip ∧ Disjoint e.tree.ids a.tree.ids := by
+  simp only [step, hi] at h
+  obtain ⟨c, g, t⟩ := a
+  cases t with
+  | imm v => simp at h
+  | obj r ks =>
+    simp only at h hd
+    rw [if_pos hd] at h
+    simp only [Option.some.injEq] at h; subst h
+    refine ⟨_, rfl, rfl, rfl, strip_fresh _ _, fun x hx hxa => ?_⟩
+    have h1 := (fresh_ids _ _ x hx).1
+    have h2 := hI.iLt _ (List.mem_of_getElem? hi) x hxa
+    omega
+
+/-- a deep `update_from_other_container` leaves the group of every instance as it is (no instances get linked) -/
+theorem step_update_deep {T : Table} {D : List Tree} {s s' : St} (hI : Inv D s) {i j : Nat} {skip : List Nat} {a : Inst}
+    (hi : s.insts[i]? = some a) (hd : clsFlag T a.cls (·.updDeep) = true) (h : step T s (.update i j skip) = some s') :
+    ∀ (m : Nat) (c : Inst), s.insts[m]? = some c → ∃ c' : Inst, s'.insts[m]? = some c' ∧ c'.grp = c.grp := by
+  simp only [step] at h
+  split at h
+  · rename_i a' b hi' hj
+    have : a' = a := Option.some.inj (hi'.symm.trans hi)
+    subst this
+    split at h
+    · rename_i ra ka rb kb ce hta htb hce
+      split at h
+      · simp only [Option.some.injEq] at h; subst h
+        have hdeep : ce.updDeep = true := by simpa [clsFlag, hce] using hd
+        simp only [hdeep, if_true]
+        have m := updProps_pack (D := D) (i := i) (j := j) (ra := ra) (rb := rb) (Ga := a'.grp) (Gb := b.grp) true
+          (by simp) skip ce.props 0 s hI ⟨a', hi, rfl, by simp [hta, rootId]⟩ ⟨b, hj, rfl, by simp [htb, rootId]⟩
+        intro k c hc
+        obtain ⟨c', hc', g, _⟩ := m.2.2.2 k c hc
+        exact ⟨c', hc', g⟩
+      · cases h
+    · cases h
+  · cases h
+
+theorem clsFlag_of_ok {T : Table} (hT : tableOK T = true) {c : Nat} {ce : ClsE} (hce : T[c]? = some ce)
+    (hc : ce.isContainer = true) : clsFlag T c (·.copyDeep) = true ∧ clsFlag T c (·.updDeep) = true := by
+  have := clsOK_container (tableOK_cls hT hce) hc
+  simp [clsFlag, hce, this.1, this.2]
 
 theorem run_inv {T : Table} (hT : tableOK T = true) {D : List Tree} :
     ∀ (ops : List Op) (s : St), Inv D s → Inv D (run T s ops)
